@@ -163,6 +163,33 @@ def setByte (O : ChunkOps C) (bv : BVec C) (off : Nat) (v : C) : Except Err (BVe
         let l3 := setChunk O l2 (off + 1) (O.slice c (oic + 1) (O.len c))
         .ok ⟨l3, bv.length⟩
 
+/-- `if isinstance(value, ByteVec): for k, c in value.chunks.items(): __set_chunk(start + k, c)`
+    `else: __set_chunk(start, value)` -/
+def storeValue (O : ChunkOps C) (l : List (Nat × C)) (start : Nat) : Value C → List (Nat × C)
+  | .one c => setChunk O l start c
+  | .many _ vs _ => vs.foldl (fun l e => setChunk O l (start + e.1) e.2) l
+
+/-- `if last_chunk.end and stop < last_chunk.end: __set_chunk(stop, last_chunk.chunk[stop - last_chunk.start:])` -/
+def keepTail (O : ChunkOps C) (l : List (Nat × C)) (stop : Nat) : Option (Info C) → List (Nat × C)
+  | some (_, lk, lc, le) =>
+    if stop < le then setChunk O l stop (O.slice lc (stop - lk) (O.len lc)) else l
+  | none => l
+
+/-- the general (non-aligned, in-range) path of `set_slice`, after `first_chunk = (fi, fk, fc, _)` was loaded:
+    delete the overwritten chunks, truncate the first one, store the value's chunks, keep the tail of the last -/
+def setSliceGeneral (O : ChunkOps C) (bv : BVec C) (start stop : Nat) (v : Value C)
+    (fi fk : Nat) (fc : C) : BVec C :=
+  let last := loadChunk O bv (stop - 1)
+  let removeTo := if stop ≥ bv.length then bv.chunks.length
+                  else match last with
+                    | some (li, _, _, _) => li + 1
+                    | none => 0
+  let l1 := delRange bv.chunks (fi + 1) removeTo
+  let l2 := setChunk O l1 fk (O.slice fc 0 (start - fk))
+  let l3 := storeValue O l2 start v
+  let l4 := keepTail O l3 stop last
+  ⟨l4, max bv.length stop⟩
+
 /-- `set_slice(start, stop, value)` for `0 ≤ start, stop` -/
 def setSlice (O : ChunkOps C) (bv : BVec C) (start stop : Nat) (v : Value C) : Except Err (BVec C) :=
   if start = stop then .ok bv
@@ -176,22 +203,7 @@ def setSlice (O : ChunkOps C) (bv : BVec C) (start stop : Nat) (v : Value C) : E
     | some (fi, fk, fc, fe) =>
       match (if start = fk ∧ stop = fe then v.asChunk else none) with
       | some c => .ok ⟨setChunk O bv.chunks fk c, bv.length⟩      -- aligned write
-      | none =>
-        let last := loadChunk O bv (stop - 1)
-        let removeTo := if stop ≥ bv.length then bv.chunks.length
-                        else match last with
-                          | some (li, _, _, _) => li + 1
-                          | none => 0
-        let l1 := delRange bv.chunks (fi + 1) removeTo
-        let l2 := setChunk O l1 fk (O.slice fc 0 (start - fk))
-        let l3 := match v with
-          | .one c => setChunk O l2 start c
-          | .many _ vs _ => vs.foldl (fun l e => setChunk O l (start + e.1) e.2) l2
-        let l4 := match last with
-          | some (_, lk, lc, le) =>
-            if stop < le then setChunk O l3 stop (O.slice lc (stop - lk) (O.len lc)) else l3
-          | none => l3
-        .ok ⟨l4, max bv.length stop⟩
+      | none => .ok (setSliceGeneral O bv start stop v fi fk fc)
 
 /-- `set_word(offset, value)` where `w` is the wrapped 32-byte value -/
 def setWord (O : ChunkOps C) (bv : BVec C) (off : Nat) (w : C) : Except Err (BVec C) :=
@@ -284,6 +296,11 @@ def step (p : Pool) (op : Op) : Pool × Reply :=
 def run : Pool → List Op → List Reply
   | _, [] => []
   | p, op :: rest => (step p op).2 :: run (step p op).1 rest
+
+/-- the pool after a history -/
+def exec : Pool → List Op → Pool
+  | p, [] => p
+  | p, op :: rest => exec (step p op).1 rest
 
 end Pure
 
